@@ -92,7 +92,9 @@ class Constraint(BaseConstraint):
                 if self._operator == "not in":
                     return other.value in self.value
                 if self._operator == "!=":
-                    return self.value not in other.value
+                    # every string without other.value differs from self.value
+                    # only if self.value itself contains other.value
+                    return other.value in self.value
 
             return self == other
 
@@ -127,12 +129,12 @@ class Constraint(BaseConstraint):
             return True
 
         elif isinstance(other, MultiConstraint):
-            return self._operator == "!="
+            # conservative: a negative constraint and a conjunction
+            # of negative constraints are assumed to overlap
+            return True
 
         elif isinstance(other, UnionConstraint):
-            return self._operator == "!=" and any(
-                self.allows_any(c) for c in other.constraints
-            )
+            return any(self.allows_any(c) for c in other.constraints)
 
         return other.is_any()
 
